@@ -173,6 +173,9 @@ def render_scenario(sc: Dict[str, Any]) -> Tuple[str, str]:
         elif cpo == 1 and len(chain) >= 2:
             chain = [chain[0], chain[-1]] + chain[1:-1] if len(chain) == 3 else [chain[1], chain[0]]
         items.extend(chain)
+        # a second user of the same constrained primitive, declared (and hence rendered) BEFORE the class under test and
+        # without any class-level constraint: what is inferred for x must not depend on other users of Cp
+        items.append({"kind": "class", "name": "Twin", "props": [{"name": "y", "type": "Cp"}]})
     if kind == "list_cls":
         items.append({"kind": "class", "name": "Item", "props": [{"name": "n", "type": "int"}]})
     if kind == "list_ccls":
